@@ -39,6 +39,10 @@ def run(ck, ctx):
                      "from the encoded one although it compares equal)")
     ck.rule("R14.9", "an encoder encodes what it was given: the checkpoint writer (and the manager in front of it) passes the state map it "
                      "received into the encoded CheckpointData unchanged - no retain/filter/remove on the way - and key_count is its length")
+    ck.rule("R14.11", "encodings stay in serde's plain derived form: no Serialize/Deserialize impl of a replication or streaming type goes "
+                      "through serde's buffered `Content` tree (internally tagged / untagged enums, #[serde(flatten)]) or deserialize_any: "
+                      "under JSON the buffered form turns the integer keys of the per-replica maps (VectorClock, GCounter, PNCounter) into "
+                      "strings that no longer decode, and bincode (WAL, segments, checkpoints) cannot decode a self-describing form at all")
     from . import bounds as _bounds
     ck.rule("R14.10", _bounds.TEXT % "the WAL, segment and checkpoint decoders")
     ck.nd("round-trip equality for all values (derive-generated serde and bincode/serde_json are trusted); detection probability of CRC32")
@@ -54,6 +58,7 @@ def run(ck, ctx):
         _r145(ck, prog, cfg)
         _r148(ck, prog, cfg)
         _r149(ck, prog, cfg)
+        _r1411(ck, prog, cfg)
         _bounds.rule(ck, prog, cfg, "R14.10", ("src/streaming/wal.rs", "src/streaming/segment.rs", "src/streaming/checkpoint.rs"),
                      "a truncated segment, checkpoint or WAL image", exempt={"CheckpointReader::<'a>::load": "load() reads the offsets validate() has checked; R14.4 requires a successful validate() before every load() on the recovery and checkpoint paths"}, floor=20, tag=_tag(cfg))
         from . import c10
@@ -534,3 +539,30 @@ def _r149(ck, prog, cfg):
                  "fine - the round trip through the checkpoint encoding loses them" % (short, callee(narrow[0][1]).rsplit("::", 1)[-1] if narrow else ""),
                  (narrow[0][0] if narrow else f).where(narrow[0][1]["ln"] if narrow else None), detail="no retain/filter/remove on the state map")
     ck.floor("R14.9" + _tag(cfg), n, 2)
+
+
+def _r1411(ck, prog, cfg):
+    BUF = re.compile(r"deserialize_any|deserialize_ignored_any|::de::content::|::ser::content::|TaggedContentVisitor|ContentDeserializer|ContentRefDeserializer|"
+                     r"FlatMapDeserializer|FlatMapSerializer|TaggedSerializer|serialize_tagged_newtype|InternallyTaggedUnitVisitor|UntaggedUnitVisitor")
+    n = hits = 0
+    for f in prog.fns.values():
+        if f.crate != "lib" or not re.search(r"Deserialize<'de> for|Serialize for|Visitor<'de> for", f.id):
+            continue
+        if not (f.file.startswith("src/replication/") or f.file.startswith("src/streaming/") or f.file == "src/redis/data/sds.rs"):
+            continue
+        n += 1
+        for b, t in f.calls():
+            cn = t.get("fnargs") or callee(t)
+            m = BUF.search(cn)
+            if not m:
+                continue
+            hits += 1
+            ty = re.search(r" for ([\w:]+)", f.id)
+            ck.bad("R14.11", "%s:%s%s" % ((ty.group(1) if ty else f.id).replace("replication::", "").replace("streaming::", ""), m.group(0).strip(":"), _tag(cfg)),
+                   "the serde impl of %s uses %s: the value is (de)serialized through serde's buffered/self-describing representation - "
+                   "JSON gossip frames with integer-keyed maps (vector clocks, counters) are written but can no longer be read back, "
+                   "and bincode cannot read such a form at all" % (ty.group(1) if ty else f.id, m.group(0).strip(":")), f.where(t["ln"]))
+            break
+    ck.floor("R14.11:impls-scanned" + _tag(cfg), n, 100)
+    if hits == 0:
+        ck.ok("R14.11", "serde-impls-plain" + _tag(cfg), "%d derived/manual serde impl functions scanned" % n)
